@@ -172,7 +172,7 @@ func verifyFunc(p *Prog, key string) *FuncResult {
 		}
 		for _, o := range res.Obls {
 			o.Status = "undecided"
-			o.Solver = ""
+			o.Solver = "none"
 			o.Model = why
 		}
 	}
